@@ -287,6 +287,8 @@ func raceMain(args []string) {
 			// directive values that load but are rejected when they are interpreted: every execution gets the SAME error
 			{"d.html", `<h1>d</h1><p :with="a := ${x} b := ${y}" :text="${a}">o</p>`},
 			{"e.html", `<h1>e</h1><p :range="i, x, z : orders" :text="${x}">o</p><p :remove="nonsense">r</p>`},
+			// a fragment name computed from THIS execution's data (literal text followed by a block)
+			{"g.html", `<template :define="card-a">A</template><template :define="card-b">B</template><p :insert="card-${kind}">x</p><q :replace="card-${kind}">y</q>`},
 		}
 		for round := 0; round < *rounds; round++ {
 			rc := &renderCase{Files: files, Tpl: "a.html"}
@@ -303,7 +305,13 @@ func raceMain(args []string) {
 			}
 			jobs := make([]job, G)
 			for g := range jobs {
-				switch (g + round) % 6 {
+				switch (g + round) % 9 {
+				case 6:
+					jobs[g] = job{"g.html", map[string]any{"kind": "a"}, "<p>A</p>A"}
+				case 7:
+					jobs[g] = job{"g.html", map[string]any{"kind": "b"}, "<p>B</p>B"}
+				case 8:
+					jobs[g] = job{"g.html", map[string]any{"kind": "zz"}, " ERR"}
 				case 4:
 					jobs[g] = job{"d.html", map[string]any{"x": 1, "y": 2}, "<h1>d</h1> ERR"}
 				case 5:
